@@ -211,11 +211,10 @@ Section Ops.
                     let n := if n1 =? 0 then N.of_nat (length d3) else n1 in
                     do tk <- take n d3;
                     let '(args, rest) := tk in
+                    (* limit 0 = everything that is left after the base charge of 256 *)
                     let limit := if l1 =? 0 then (gas - 256)%Z else Z.of_N l1 in
-                    if (gas - 256 <? limit)%Z then inl ERunLimitExceeded
-                    else
-                      let '(okc, _, cd, _) := child predicate args limit in
-                      ok (bool_item (okc && match cd with [] => false | t :: _ => truthy t end) :: rest) a
+                    let '(okc, _, cd, _) := child predicate args limit in
+                    ok (bool_item (okc && match cd with [] => false | t :: _ => truthy t end) :: rest) a
                 end
             end
         end
@@ -466,7 +465,7 @@ Definition spec_cost (op : N) (d : stack) : opcost :=
   match op with
   | 0%N | 76%N | 77%N | 78%N => cost 1 0 0
   | 97%N | 99%N | 100%N | 105%N | 106%N => cost 1 0 0
-  | 192%N => cost 64 0 192
+  | 192%N => cost 64 0 (192 + size_operand (top0 d))   (* without the child's own consumption: see C07 *)
   | 107%N | 108%N | 109%N | 110%N => cost 2 0 0
   | 111%N => cost 3 0 0
   | 112%N | 113%N | 114%N => cost 2 0 0
